@@ -19,7 +19,7 @@ def run(ctx):
     # the reverse-NFA construction (Reverse.v = nfa/reverse.go): the model must build the SAME automaton as nfa.Reverse /
     # nfa.ReverseAnchored (nfa_eqb); Go side: forward accepting paths vs reverse paths / lazy reverse DFA on short haystacks
     generic.standard(ctx, ["Props_Reverse"], "reverse-cases", "reverse-nfa-model-vs-implementation", lists=("M",), seed=1)
-    generic.standard(ctx, ["Props_Dfa"], "dfa-cases", "lazydfa-model-vs-implementation", lists=("M",), seed=1,
+    generic.standard(ctx, ["Props_Dfa", "Props_DfaPrio"], "dfa-cases", "lazydfa-model-vs-implementation", lists=("M", "PS"), seed=1,
                      ledger="known/C14dfa.ledger", timeout=3000)
     ctx.coverage["explanation"] = (
         "Coq: the bounded backtracker (all entry points, both modes, any reusable state) equals the reference search; declines exactly "
@@ -33,8 +33,9 @@ def run(ctx):
         "determinisation with 1-byte match delay, look-behind start states, the byte-accounted cache with clears and the search "
         "loops are modelled; proved for all NFAs without look-around, haystacks, offsets and caches: the cached search returns the "
         "pure DFA answer or falls back (cache transparency, capacity irrelevance, history independence), IsMatch = reference, "
-        "no-match iff the reference has none, the reported end is an end of the LEFTMOST start (priority among those ends: "
-        "PARTIAL), anchored search complete; the model replays observed call histories of the real lazy.DFA on every check. "
+        "no-match iff the reference has none, and the reported END IS THE REFERENCE'S END (DfaPrio.v: the DFA state list is the erasure "
+        "of the PikeVM's thread list, so pike_search_is_ref applies; side condition prefix_sep - nothing but the unanchored prefix refers "
+        "to its two states - is true by construction of the compiler and re-checked on every dumped NFA, list PS), anchored search complete; the model replays observed call histories of the real lazy.DFA on every check. "
         "One-pass DFA (Onepass.v, OnepassProofs.v): builder (priority-ordered closure, one-pass checks, look handling, dead state 0) and "
         "Search / IsMatch are modelled; proved for every wf NFA on which the build succeeds and every haystack: Search = the anchored "
         "reference INCLUDING all capture slots, IsMatch = reference (onepass_search_is_ref, onepass_is_match_is_ref); five original "
